@@ -110,47 +110,48 @@ Qed.
 Lemma to_double_small : forall z, (Z.abs z < 2 ^ 53)%Z -> to_double z = inject_Z z.
 Proof. intros z H. unfold to_double. apply Z.ltb_lt in H. rewrite H. reflexivity. Qed.
 
-(* astronomy._days as it is now: the same bits for one instant in any unit (no bound on the tick count
-   other than numpy's int64 -> double conversion of the whole-day count being the same integer) *)
+(* whole + remainder/unit in binary64: the same bits for two tick counts of the same ratio to their units *)
+Lemma whole_plus_fraction_units : forall d1 p1 d2 p2 : Z,
+  (0 < p1 < 2 ^ 53)%Z -> (0 < p2 < 2 ^ 53)%Z -> (d1 * p2 = d2 * p1)%Z ->
+  whole_plus_fraction d1 p1 = whole_plus_fraction d2 p2.
+Proof.
+  intros d1 p1 d2 p2 P1 P2 H. unfold whole_plus_fraction.
+  assert (W : (d1 / p1 = d2 / p2)%Z) by (apply div_same_ratio; lia).
+  rewrite <- W. set (w := (d1 / p1)%Z) in *.
+  assert (R1 : (0 <= d1 - w * p1 < p1)%Z).
+  { unfold w. pose proof (Z.mod_pos_bound d1 p1 (proj1 P1)) as M. rewrite Z.mod_eq in M by lia. lia. }
+  assert (R2 : (0 <= d2 - w * p2 < p2)%Z).
+  { rewrite W. pose proof (Z.mod_pos_bound d2 p2 (proj1 P2)) as M. rewrite Z.mod_eq in M by lia. lia. }
+  apply rn_Qeq. apply Qplus_comp; [reflexivity|].
+  unfold fdiv_ticks. rewrite !to_double_small by lia.
+  assert (E : inject_Z (d1 - w * p1) / inject_Z p1 == inject_Z (d2 - w * p2) / inject_Z p2).
+  { unfold Qeq, Qdiv, Qmult, Qinv, inject_Z.
+    destruct p1 eqn:E1; try lia. destruct p2 eqn:E2; try lia. cbn. nia. }
+  rewrite (rn_Qeq _ _ E). reflexivity.
+Qed.
+
+(* astronomy._days as it is now: the same bits for one instant in any unit, for every tick count *)
 Lemma days_float_units : forall (u v : tunit) (a b : Z),
   ((a - j2000 u) * ticks_per_day v = (b - j2000 v) * ticks_per_day u)%Z ->
   days_float u a = days_float v b.
 Proof.
-  intros u v a b H. unfold days_float.
-  set (du := (a - j2000 u)%Z) in *. set (dv := (b - j2000 v)%Z) in *.
-  pose proof (tpd_pos u) as Pu. pose proof (tpd_pos v) as Pv.
-  pose proof (tpd_small u) as Su. pose proof (tpd_small v) as Sv.
-  assert (W : (du / ticks_per_day u = dv / ticks_per_day v)%Z) by (apply div_same_ratio; assumption).
-  rewrite <- W. set (w := (du / ticks_per_day u)%Z) in *.
-  assert (Ru : (0 <= du - w * ticks_per_day u < ticks_per_day u)%Z).
-  { unfold w. pose proof (Z.mod_pos_bound du _ Pu) as M. rewrite Z.mod_eq in M by lia. lia. }
-  assert (Rv : (0 <= dv - w * ticks_per_day v < ticks_per_day v)%Z).
-  { rewrite W. pose proof (Z.mod_pos_bound dv _ Pv) as M. rewrite Z.mod_eq in M by lia. lia. }
-  apply rn_Qeq. apply Qplus_comp; [reflexivity|].
-  unfold fdiv_ticks. rewrite !to_double_small by lia.
-  assert (E : inject_Z (du - w * ticks_per_day u) / inject_Z (ticks_per_day u)
-              == inject_Z (dv - w * ticks_per_day v) / inject_Z (ticks_per_day v)).
-  { unfold Qeq, Qdiv, Qmult, Qinv, inject_Z.
-    destruct (ticks_per_day u) eqn:Eu; try lia. destruct (ticks_per_day v) eqn:Ev; try lia.
-    cbn. nia. }
-  rewrite (rn_Qeq _ _ E). reflexivity.
+  intros u v a b H.
+  apply (whole_plus_fraction_units (a - j2000 u) (ticks_per_day u) (b - j2000 v) (ticks_per_day v));
+    [split; [apply tpd_pos | apply tpd_small] | split; [apply tpd_pos | apply tpd_small] | exact H].
 Qed.
 
-(* the plain division (still used for minutes since epoch in _Keplerians._get_timedelta_in_minutes):
-   same bits while both tick counts are below 2^53 ... *)
+(* _Keplerians._get_timedelta_in_minutes as it is now: the same bits for one duration since epoch in any unit *)
 Lemma minutes_float_units : forall (u v : tunit) (a b : Z),
-  (Z.abs a < 2 ^ 53)%Z -> (Z.abs b < 2 ^ 53)%Z ->
   (a * ticks_per_second v = b * ticks_per_second u)%Z ->
   minutes_float u a = minutes_float v b.
 Proof.
-  intros u v a b Ha Hb H. unfold minutes_float, fdiv_ticks.
-  rewrite (to_double_small a Ha), (to_double_small b Hb).
-  rewrite !to_double_small by (destruct u, v; cbn; lia).
-  apply rn_Qeq. unfold Qeq, Qdiv, Qmult, Qinv, inject_Z. destruct u, v; cbn in *; lia.
+  intros u v a b H. unfold minutes_float.
+  apply whole_plus_fraction_units; [destruct u; cbn; lia | destruct v; cbn; lia | lia].
 Qed.
 
-(* ... and NOT beyond: 2007-10-18T15:10:14.536334 counted from 1970 in us and in ns *)
-Lemma minutes_float_double_rounding :
-  (1192720214536334 * ticks_per_second US_ns = 1192720214536334000 * ticks_per_second US_us)%Z /\
-  Qeq_bool (minutes_float US_us 1192720214536334) (minutes_float US_ns 1192720214536334000) = false.
+(* why the whole + remainder form matters: a plain quotient of the tick counts is rounded twice beyond 2^53
+   ticks (witness: 1192720214.536334 s in us and in ns) while the code's form gives equal bits there *)
+Lemma plain_division_double_rounding :
+  Qeq_bool (fdiv_ticks 1192720214536334 60000000) (fdiv_ticks 1192720214536334000 60000000000) = false /\
+  minutes_float US_us 1192720214536334 = minutes_float US_ns 1192720214536334000.
 Proof. split; vm_compute; reflexivity. Qed.
